@@ -69,6 +69,8 @@ ROUND_CAP = {"quick": 40, "thorough": 60}
 # cone helpers
 # --------------------------------------------------------------------------------------------
 def cone_W(case):
+    if "W" in case:   # explicit rows (θ-cones, ice-cream cones: floats produced by the real constructors)
+        return [[float(x) for x in r] for r in case["W"]]
     if case["alg"] == "Auer" or case["alg"] == "EpsilonPAL":
         m = len(case["Y"][0])
         return [[1.0 if i == j else 0.0 for j in range(m)] for i in range(m)]
@@ -245,7 +247,7 @@ def build_algorithm(case):
     common = dict(epsilon=case["eps"], delta=case["delta"], noise_var=case["noise_var"],
                   conf_contraction=case["conf"])
     W = cone_W(case)
-    adv = (D6Adversary if case["adv"]["mode"] == "d6" else Adversary)(case, W)
+    adv = {"d6": D6Adversary, "boxes": BoxAdversary}.get(case["adv"]["mode"], Adversary)(case, W)
     if name == "PaVeBa":
         alg = stubs.build(name, in_data=X, out_data=Y, W=W, **common)
     elif name == "Auer":
@@ -298,7 +300,7 @@ def known_crash(alg, case, key, n_active_before):
     """crashes that belong to C06's verdict (suspected defects D6 / D7): counted and skipped here"""
     name = case["alg"]
     if key == "ValueError@confidence_region.py:is_covered" and name in RECT_ALGS:
-        if len(EXACT_CONES[case["cone"]][0]) != len(case["Y"][0]):
+        if len(cone_W(case)) != len(case["Y"][0]):
             return "crash_rect_slack_per_facet_D6"
     if key in D7_FRAMES:
         now = len(set(alg.S) | set(getattr(alg, "U", getattr(alg, "P", ()))))
@@ -711,6 +713,150 @@ def auer_position_case():
                     "offsets": [z, [[a, -a], [b, -b]], [[-a, a], [-b, b]], z]}}
 
 
+class BoxAdversary(Adversary):
+    """explicit displayed boxes: `adv["history"][t] = [offsets (n×m), half-widths (n×m)]` — in round t the box of
+    design i is `μ_i + offsets[i] ± half[i]` whatever the algorithm's scale; after the last entry the boxes keep
+    their last offsets/half-widths multiplied by `tail_shrink` per further round (floor 2^-14)."""
+
+    def _entry(self, t):
+        H = self.adv["history"]
+        k = min(t, len(H) - 1)
+        off, half = np.array(H[k][0], dtype=float), np.array(H[k][1], dtype=float)
+        f = float(self.adv.get("tail_shrink", 0.5)) ** max(0, t - (len(H) - 1))
+        return off * f, np.maximum(half * f, FLOOR)
+
+    def covs(self, t):
+        _, half = self._entry(t)
+        return np.stack([np.diag(h ** 2) for h in half])
+
+    def posterior(self, t, scale, ell, S=(), P=()):
+        off, half = self._entry(t)
+        sd = half / scale
+        return self.Y + off, np.stack([np.diag(x ** 2) for x in sd])
+
+
+# --------------------------------------------------------------------------------------------
+# structured family: over-optimistic region domination on acute cones
+# --------------------------------------------------------------------------------------------
+_cone_cache = {}
+
+
+def acute_cone(name):
+    """(label, W rows) of a cone whose matrix has negative entries, built by the real constructors"""
+    if name not in _cone_cache:
+        if name.startswith("theta"):
+            from vopy.utils import get_2d_w
+
+            W = get_2d_w(float(name[5:]))
+        elif name.startswith("icecream"):
+            from vopy.order import ConeOrder3DIceCream
+
+            deg, k = name[8:].split("x")
+            W = ConeOrder3DIceCream(float(deg), int(k)).ordering_cone.W
+        else:
+            W = np.array(EXACT_CONES[name][0], dtype=float)
+        _cone_cache[name] = [[float(x) for x in r] for r in np.asarray(W, dtype=float)]
+    return _cone_cache[name]
+
+
+def box_vertices(lo, hi):
+    import itertools
+
+    return [np.array(v) for v in itertools.product(*zip(lo, hi))]
+
+
+def corner_pair(rng, W, s, want_pess=False, tries=400):
+    """Two designs (victim 0, witness 1) and first-round boxes such that the truth is inside both boxes, the
+    true difference μ_1 (+ s) − μ_0 lies just OUTSIDE the cone (one facet slightly negative, the others clearly
+    positive), corner-to-corner dominance `W(lower_1 + s − upper_0) ≥ 0` holds, but some cross pair of vertices
+    fails — boxes anisotropic (5–20×), elongated where the facet with the negative entry is blind.
+    With `want_pess` the witness's vertices all dominate the low corner of the victim's box (victim outside the
+    pessimistic set) and no vertex of the victim's box dominates a point of the witness's box.
+    Returns (Y, offsets, halfs) or None."""
+    Wn = np.array(W, dtype=float)
+    N, m = Wn.shape
+    s = np.array(s, dtype=float)
+    rows = [n for n in range(N) if np.any(Wn[n] < 0)]
+    if not rows:
+        return None
+    for _ in range(tries):
+        n0 = rng.choice(rows)
+        neg = Wn[n0] < 0
+        hb = rng.choice([0.1, 0.2, 0.4])
+        ratio = rng.choice([5.0, 10.0, 20.0])
+        h1 = np.where(neg, hb, hb / ratio)                       # witness: long where w_n0 is negative
+        h0 = np.where(neg, hb * rng.choice([0.25, 0.5, 1.0]), hb / ratio)
+        if want_pess:
+            k = rng.randrange(m)
+            h0 = h0.copy()
+            h0[k] = hb * rng.choice([1.0, 2.0, 3.0])             # victim: long, hanging below the truth
+        # target facet values of d = μ_1 − μ_0
+        slack_n = Wn @ s
+        reach = np.abs(Wn) @ (h0 + h1)
+        target = 2.5 * reach + np.abs(slack_n) + rng.choice([0.1, 0.3])
+        delta = rng.choice([0.05, 0.1, 0.25]) * float((np.abs(Wn[n0]) * neg) @ (h0 + h1))
+        target[n0] = -(max(slack_n[n0], 0.0) + delta)
+        d, *_ = np.linalg.lstsq(Wn, target, rcond=None)
+        fd = Wn @ d
+        if not (fd[n0] + slack_n[n0] < -1e-6 and np.all(np.delete(fd, n0) > 0)):
+            continue
+        # offsets: truth near the upper corner of the victim's box (it hangs below), witness pushed along −w_n0
+        f = rng.choice([0.5, 0.9, 1 - 2.0 ** -5])
+        off0 = -f * h0 if want_pess else f * h0 * np.sign(-Wn[n0]) * rng.choice([0.0, 1.0])
+        off1 = f * h1 * np.sign(Wn[n0]) * rng.choice([0.0, 0.5, 1.0])
+        mu0 = np.zeros(m)
+        mu1 = d
+        lo0, hi0 = mu0 + off0 - h0, mu0 + off0 + h0
+        lo1, hi1 = mu1 + off1 - h1, mu1 + off1 + h1
+        tol = 1e-9
+        corner = np.all(Wn @ (lo1 + s - hi0) >= 1e-6)
+        exact = all(np.all(Wn @ (v1 + s - v0) >= -tol) for v0 in box_vertices(lo0, hi0) for v1 in box_vertices(lo1, hi1))
+        if not corner or exact:
+            continue
+        if want_pess:
+            low0 = lo0
+            if not all(np.all(Wn @ (v1 - low0) >= 1e-6) for v1 in box_vertices(lo1, hi1)):
+                continue
+            # no vertex of the victim's box can dominate any point of the witness's box (witness stays pessimistic)
+            if any(np.all(Wn @ (v0 - lo1) >= -np.abs(Wn) @ (hi1 - lo1)) for v0 in box_vertices(lo0, hi0)):
+                continue
+        return [list(map(float, mu0)), list(map(float, mu1))], [list(map(float, off0)), list(map(float, off1))], \
+            [list(map(float, h0)), list(map(float, h1))]
+    return None
+
+
+CORNER_CONES_SQUARE = ["theta45", "theta30", "theta60", "acute2", "skew2", "acute3"]
+CORNER_CONES_ANY = CORNER_CONES_SQUARE + ["threefacet2", "icecream30x4", "icecream20x6"]
+
+
+def corner_case(rng, alg, cones=None):
+    """C01 member of the family: rectangular PaVeBa variant, victim 0 would be discarded by a corner-to-corner
+    shortcut although nothing dominates it; a far dominated bystander may be added."""
+    for _ in range(20):
+        cname = rng.choice(cones or CORNER_CONES_SQUARE)
+        W = acute_cone(cname)
+        m = len(W[0])
+        got = corner_pair(rng, W, np.zeros(m))
+        if got is None:
+            continue
+        Y, off, half = got
+        if rng.random() < 0.5:
+            u = interior_direction(W)
+            if u is not None:
+                Y.append([float(x) for x in (np.array(Y[0]) - 6.0 * u - np.abs(np.array(Y[1])))])
+                off.append([0.0] * m)
+                half.append([2.0 ** -6] * m)
+        n = len(Y)
+        tiny = [[2.0 ** -7] * m for _ in range(n)]
+        return {"kind": "run", "alg": alg, "cone": cname, "W": W, "shape": "acute-corner", "Y": Y,
+                "eps": rng.choice([0.01, 0.05]), "delta": 0.1, "noise_var": 0.0001, "conf": rng.choice([1, 32]),
+                "batch": 1,
+                "adv": {"mode": "boxes", "frac": 1.0, "sd0": [[1.0] * m] * n, "shrink": [0.5] * n,
+                        "seed": rng.randrange(1 << 30), "tail_shrink": 0.5,
+                        "history": [[off, half], [[[0.0] * m] * n, tiny]]}}
+    return None
+
+
 class D6Adversary(Adversary):
     """boxes of half-widths (Hx, Hy) for both designs (whatever the scale), design 0's centre pushed towards
     +x, design 1's towards −x by frac·Hx: facet 1 = (2,1) still allows `not dominated`, facet 2 = (1,2)
@@ -733,7 +879,12 @@ def gen(ctx):
     # the hand-built histories d6_case(0/1), auer_minwidth_case(), auer_position_case() live in corpus/C01/
     for _ in range(ctx.n(30, 700)):
         yield gen_auer_offsets(rng, ctx.tier)
-    # structured sweep first: every algorithm × a few shapes
+    # structured family: over-optimistic region domination on acute cones (rectangular variants)
+    for k in range(ctx.n(8, 160)):
+        c = corner_case(rng, RECT_ALGS[k % 2])
+        if c is not None:
+            yield c
+    # structured sweep: every algorithm × a few shapes
     total = ctx.n(64, 1200)
     k = 0
     shapes = ["ties", "front", "eps-boundary", "chain", "near-incomparable", "random"]
